@@ -16,13 +16,13 @@ PLAN = {
     "quick": {"configs": ["ext1", "ext0"], "nshards": 12, "nshards_ext0": 4, "timeout": 900},
     "thorough": {"configs": ["ext1", "ext0"], "nshards": 16, "timeout": 3400, "suite": ["ext1"]},
 }
-DECIDING = ["unary", "addsub", "scale", "divmod", "compare", "yearsmonths", "divide_and_round", "interval_ops"]
+DECIDING = ["unary", "addsub", "scale", "divmod", "compare", "yearsmonths", "divide_and_round", "interval_ops", "concurrent"]
 FLOORS = {"quick": {"unary": 50000, "addsub": 200000, "scale": 200000, "divmod": 200000, "compare": 100000,
-                    "yearsmonths": 20000, "interval_ops": 5000},
+                    "yearsmonths": 20000, "interval_ops": 5000, "concurrent": 20000},
           "thorough": {"unary": 500000, "addsub": 2 * 10**6, "scale": 2 * 10**6, "divmod": 2 * 10**6, "compare": 10**6,
-                       "yearsmonths": 200000, "interval_ops": 50000}}
+                       "yearsmonths": 200000, "interval_ops": 50000, "concurrent": 100000}}
 REQUIRED_HOOKS = []      # the private _divide_and_round hook adds an exact-rational check; the operators are judged at the boundary
-TECHNIQUE = "differential runtime monitor against datetime.timedelta for every Duration operator x operand kind x side; contract on _divide_and_round against exact rational round-half-even; Interval (signed/absolute) operands on both sides; fold-sibling intervals, and operands that equal an earlier years/months operand as timedeltas, visited in one process (history workloads)"
+TECHNIQUE = "differential runtime monitor against datetime.timedelta for every Duration operator x operand kind x side; contract on _divide_and_round against exact rational round-half-even; Interval (signed/absolute) operands on both sides; fold-sibling intervals, and operands that equal an earlier years/months operand as timedeltas, visited in one process (history workloads); freshly built Durations shared by four threads under a 1 us switch interval, history judged offline"
 LEVEL_TEXT = ("every operator result is compared with the same operator on native timedeltas (exact integer microseconds) and its "
               "type is checked; operands include both signs, plain timedeltas on either side, ints, floats with long binary "
               "expansions and constructed round-half-even ties; held on what was observed")
@@ -79,6 +79,9 @@ def cases(M):
         for t, ob, oa in ov[-6:]:
             yield {"k": "siblings", "z": zn, "w": (t + oa) * US + r.randrange((ob - oa) * US), "first": r.randrange(2), "k_": r.choice((2, 3, -5)),
                    "a": r.randrange(1, 10**10)}
+    if M.shard % 2 == 0:
+        for _ in range(3 if M.tier == "thorough" else 1):
+            yield {"k": "threads", "seed": r.randrange(1 << 30), "n": 4000 if M.tier == "thorough" else 2400}
     for j in range(n):
         (ma, a), (mb, b) = _val(r), _val(r)
         k = r.choice((r.randrange(-1000, 1001), r.randrange(-10**6, 10**6), 2, -2, 3, 7))
@@ -169,9 +172,56 @@ def _siblings(M, c):
                 **ctx)
 
 
+def _threads(M, c):
+    """freshly built Durations SHARED by several threads whose first arithmetic use happens at the same time (anything an
+    operator memoises on the instance, or in a module-level table, is filled by racing threads); every thread records its
+    results, the history is judged afterwards against the same operators on native timedeltas"""
+    import random
+
+    from pvmon import conc
+
+    r = random.Random(c["seed"])
+    D = M.D
+    items = []
+    for _ in range(c["n"]):
+        a = r.randrange(-10**12, 10**12) | 1
+        b = r.randrange(1, 10**10)
+        items.append((D(microseconds=a), dt.timedelta(microseconds=b), D(microseconds=b), a, b))
+
+    def ops(d, tb, db):
+        return (td_us(d * 3), d // tb, td_us(d % tb), d / tb, td_us(d // 7), td_us(d / 7), d // db, td_us(d % db), tb // d, td_us(-d), td_us(abs(d)),
+                td_us(d + tb), td_us(tb - d), td_us(d * 0.5), d == dt.timedelta(microseconds=td_us(d)), hash(d))
+
+    names = ("mul-int", "floordiv-td", "mod-td", "truediv-td", "floordiv-int", "truediv-int", "floordiv-D", "mod-D", "rfloordiv-td", "neg", "abs",
+             "add-td", "rsub-td", "mul-float", "eq-native", "hash")
+    M.quiet += 1
+    try:
+        hist, st = conc.run(items, lambda it: ops(it[0], it[1], it[2]), nthreads=4, chunk=40)
+    finally:
+        M.quiet -= 1
+    for k_, v in st.items():
+        M.count("concurrent." + k_, v)
+    for t, i, kind, v in hist:
+        a, b = items[i][3], items[i][4]
+        ta, tb = dt.timedelta(microseconds=a), dt.timedelta(microseconds=b)
+        if kind == "exc":
+            M.check("concurrent", False, f"C10/concurrent:raised-{type(v).__name__}", "an operator raised while other threads used the same Duration",
+                    a_us=a, b_us=b, exc=repr(v), thread=t)
+            continue
+        exp = ops(ta, tb, tb)
+        bad = [n for n, g, e in zip(names, v, exp) if g != e]
+        M.check("concurrent", not bad, "C10/concurrent:" + "+".join(bad[:3]), "operator results differ from timedelta when several threads use the same "
+                "Duration at the same time", a_us=a, b_us=b, got=list(v), expected=list(exp), thread=t)
+    M.cls("threads", st["threads"])
+    M.sample(c)
+
+
 def run(M, c):
     if c.get("k") == "siblings":
         _siblings(M, c)
+        return
+    if c.get("k") == "threads":
+        _threads(M, c)
         return
     D = M.D
     a, b, k, f = c["a"], c["b"], c["k"], c["f"]
